@@ -66,6 +66,13 @@ func CheckSchema(s *model.Schema) []string {
 	dirLoc := func(where string, loc string, uses []model.DirUse) {
 		for _, u := range uses {
 			if u.Name == "deprecated" || u.Name == "go" || u.Name == "skip" || u.Name == "include" {
+				// the directives every root has: what they declare is fixed
+				declared := map[string]string{"deprecated": "reason", "go": "type", "skip": "if", "include": "if"}[u.Name]
+				for _, a := range u.Args {
+					if a.Name != declared {
+						bad("%s: @%s has no argument %s", where, u.Name, a.Name)
+					}
+				}
 				continue
 			}
 			d := s.Dir(u.Name)
